@@ -211,7 +211,7 @@ structure WF (env : Env) (st : St) : Prop where
   uniq : ∀ a ∈ st.tab, ∀ b ∈ st.tab, a.dh = b.dh → a.assoc = .assoc → b.assoc = .assoc → a.h = b.h
   assoc_open : ∀ s ∈ st.tab, s.assoc = .assoc → s.unbindV = none
 
-/-- marked as disassociated at version `v` -/
-def Marked (v : Nat) (s : CState) : Prop := s.assoc = .dis ∧ s.unbindV = some v ∧ s.unbindT ≠ none
+/-- marked as disassociated at version `v` and (virtual) time `t` -/
+def Marked (v t : Nat) (s : CState) : Prop := s.assoc = .dis ∧ s.unbindV = some v ∧ s.unbindT = some t
 
 end Sdc.ContextAssoc
